@@ -64,7 +64,12 @@ var pwStrings = []string{"correct horse battery staple", "Tr0ub4dor&3", "hunter2
 	strings.Repeat("q", 72) + "2",
 	strings.Repeat("z", 255) + "x" + strings.Repeat("y", 40),
 	strings.Repeat("z", 255) + "w" + strings.Repeat("y", 40),
+	// the documented default password of the shipped admin row (db/migrations): it verifies against nothing once the
+	// row holds another hash, for any user name
+	"placeholder",
 }
+
+const tokDefaultPw = 10
 
 func pwString(tok int) string {
 	if tok < 0 {
@@ -855,8 +860,8 @@ func (h *harness) gridLogin() {
 		h.begin()
 		h.setHash(1, tok)
 		for _, u := range users {
-			for _, pw := range []int{0, 1, -1} {
-				if !thorough() && tok < 0 && u != "admin" && !h.r.Chance(20) {
+			for _, pw := range []int{0, 1, -1, tokDefaultPw} {
+				if !thorough() && tok < 0 && u != "admin" && pw != tokDefaultPw && !h.r.Chance(20) {
 					continue
 				}
 				_, sid := h.login(u, pw, -1)
